@@ -2,7 +2,7 @@
     and the finite maps / sets of the model, and decidable equalities.  Used
     only by the correspondence check; no theorem depends on this file. *)
 From Crdt Require Import spec.System model.VClock model.Simple model.Orswot model.MVReg model.Map
-  model.Identifier model.List model.Merkle proofs.MerkleInv proofs.Merkle.
+  model.Identifier model.List model.Merkle proofs.MerkleInv proofs.Merkle proofs.ListIndex.
 
 Definition vc_of_list (l : list (N * N)) : gmap N N := list_to_map l.
 Definition vc_to_list (c : gmap N N) : list (N * N) := map_to_list c.
@@ -50,3 +50,6 @@ Definition mk_oprec {Op} (a : N) (o : Op) (deps : list nat) : oprec Op := OpRec 
 
 (** MerkleReg: the specified state of a received node set *)
 Definition merkle_spec (hash : mnode → N) (ns : list mnode) : merkle := spec_state (R_of hash ns).
+
+Definition vec_insert_at (i : nat) (x : N) (l : list N) : list N := insert_at i x l.
+Definition vec_remove_at (i : nat) (l : list N) : list N := remove_at i l.
